@@ -29,7 +29,7 @@ impl Monitor for C15 {
         vec!["successful add_parent calls are acyclic; ids < 10^7; one name per term id".into()]
     }
     fn plan(&self, tier: Tier) -> Vec<String> {
-        let mut v: Vec<String> = (0..14).map(|i| format!("cat:{i}")).collect();
+        let mut v: Vec<String> = (0..20).map(|i| format!("cat:{i}")).collect();
         for i in 0..tier.pick(6000, 150_000) {
             v.push(format!("rnd:{i}"));
         }
@@ -49,6 +49,9 @@ impl Monitor for C15 {
             "build/with_defaults",
             "history_without_failing_call",
             "history_with_more_than_65535_terms",
+            "history_with_chain_of_more_than_65_links",
+            "history_with_65535_genes",
+            "records_sharing_a_name",
             "term_id_0_present",
         ]
         .iter()
@@ -67,7 +70,14 @@ impl Monitor for C15 {
             Some(_) => 3,
             None => [0, 2, 3, 5][rng.usize_below(4)],
         };
-        let n = rng.urange(1, 30);
+        // catalogue 14/15: a chain of 70-95 terms numbered bottom-up (ids decrease from the root to the
+        // leaf), built without defaults; catalogue 16/17: exactly 65 535 distinct genes, then a few more calls
+        let deep_chain = matches!(cat, Some(14) | Some(15));
+        let many_genes = matches!(cat, Some(16) | Some(17));
+        // catalogue 18/19 and a third of the random histories: several record ids share one name
+        let shared_names = matches!(cat, Some(18) | Some(19)) || (cat.is_none() && rng.chance(1, 3));
+        let defaults = defaults && !deep_chain;
+        let n = if deep_chain { rng.urange(70, 95) } else { rng.urange(1, 30) };
         let mut hist: Vec<String> = Vec::new();
         let mut f = FactSet::default();
         f.version = (2020, 2, 2);
@@ -78,11 +88,19 @@ impl Monitor for C15 {
             present.push(1);
             present.push(118);
         }
-        while present.len() < n + if defaults { 2 } else { 0 } {
+        while !deep_chain && present.len() < n + if defaults { 2 } else { 0 } {
             let id = rng.range(2, 400) as u32 * 2; // even ids present
             if !present.contains(&id) && id != 118 {
                 present.push(id);
             }
+        }
+        if deep_chain {
+            // root first (highest id), every following term has a smaller id
+            let top = 2 * (n as u32) + 2 * rng.range(2, 200) as u32;
+            for i in 0..n as u32 {
+                present.push(top - 2 * i);
+            }
+            out.bucket("history_with_chain_of_more_than_65_links");
         }
         // two catalogue histories register more terms than a 16-bit index can hold (even ids from 1000 on;
         // odd ids stay absent). Edges and annotations still only involve the first ~30 terms.
@@ -148,7 +166,7 @@ impl Monitor for C15 {
                         _ => (absent_near(&mut rng, &present), absent_near(&mut rng, &present), "both_absent"),
                     }
                 } else {
-                    if present.len() < 2 {
+                    if present.len() < 2 || deep_chain {
                         continue;
                     }
                     let ci = rng.urange(1, present.len().min(40) - 1);
@@ -169,6 +187,19 @@ impl Monitor for C15 {
                     failing_calls += 1;
                 }
             }
+            if deep_chain {
+                for i in 1..present.len() {
+                    let (p, c) = (present[i - 1], present[i]);
+                    bump(&mut out_local.events, "Builder::add_parent");
+                    let res = b.add_parent(p, c);
+                    hist.push(format!("add_parent({p}, {c}) -> {}", if res.is_ok() { "Ok" } else { "Err" }));
+                    if res.is_ok() {
+                        f.edges.push((c, p));
+                    } else {
+                        out_local.violate("C15", "add_parent_result/ok", format!("add_parent({p},{c}) failed although both terms exist"));
+                    }
+                }
+            }
             if defaults && !f.edges.contains(&(118, 1)) && rng.chance(3, 4) {
                 let _ = b.add_parent(1u32, 118u32);
                 hist.push("add_parent(1, 118) -> Ok".into());
@@ -176,14 +207,67 @@ impl Monitor for C15 {
             }
             let mut b = b.connect_all_terms();
 
+            // 65 535 distinct genes are within the documented limit of the information-content step
+            let mut gene_ids_accepted: BTreeSet<u32> = BTreeSet::new();
+            if many_genes {
+                out_local.bucket("history_with_65535_genes");
+                for g in 0..65_535u32 {
+                    let gid = 100 + g;
+                    let term = present[(g as usize) % present.len().min(30)];
+                    let name = format!("MG{gid}");
+                    let res = b.annotate_gene(GeneId::from(gid), &name, HpoTermId::from_u32(term));
+                    if res.is_ok() {
+                        gene_ids_accepted.insert(gid);
+                        f.recs[0].push(RecFact { id: gid, name, terms: vec![term] });
+                    } else {
+                        out_local.violate("C15", "annotate_result/ok", format!("annotate_gene({gid}, _, {term}) failed although the term exists ({} genes so far)", g));
+                    }
+                }
+                bump(&mut out_local.events, "Builder::annotate");
+                hist.push("annotate_gene(100..=65634, \"MG<id>\", present term) -> Ok  [65 535 calls]".into());
+                // further calls: new gene ids on present and absent terms, known genes on present terms. The
+                // model follows the returned results; the reason for a refusal is not judged here.
+                for j in 0..rng.urange(2, 6) {
+                    // catalogue 16 goes one gene beyond the limit, catalogue 17 stays at it
+                    let what = if cat == Some(17) { 1 + rng.below(2) } else if j == 0 { 0 } else { rng.below(3) };
+                    let (gid, term) = match what {
+                        0 => (70_000 + j as u32, *rng.pick(&present)),
+                        1 => (80_000 + j as u32, absent_near(&mut rng, &present)),
+                        _ => (100 + rng.range(0, 65_534) as u32, *rng.pick(&present)),
+                    };
+                    let name = format!("MG{gid}");
+                    let res = b.annotate_gene(GeneId::from(gid), &name, HpoTermId::from_u32(term));
+                    hist.push(format!("annotate_gene({gid}, {name:?}, {term}) -> {}", if res.is_ok() { "Ok" } else { "Err" }));
+                    if res.is_ok() {
+                        gene_ids_accepted.insert(gid);
+                        match f.recs[0].iter().position(|r| r.id == gid) {
+                            Some(i) => f.recs[0][i].terms.push(term),
+                            None => f.recs[0].push(RecFact { id: gid, name, terms: vec![term] }),
+                        }
+                    } else {
+                        failing_calls += 1;
+                        if present.contains(&term) {
+                            out_local.bucket("call/refused_for_another_reason_than_an_absent_term");
+                        }
+                    }
+                }
+            }
             // annotation calls
-            let n_ann = rng.urange(0, 40);
+            let n_ann = if many_genes { 0 } else { rng.urange(0, 40) };
             for _ in 0..n_ann {
                 let k = rng.usize_below(3);
                 let rid = rng.range(1, 9) as u32;
                 let existing = f.recs[k].iter().position(|r| r.id == rid);
                 // one name per id for successful calls; failing calls may carry another name
-                let name = format!("{}{rid}", ["G", "omim ", "orpha "][k]);
+                let name = if shared_names {
+                    // one name per id, but several ids carry the same name (also the empty one)
+                    if rid % 4 == 0 { String::new() } else { format!("{}{}", ["G", "omim ", "orpha "][k], rid % 4) }
+                } else {
+                    format!("{}{rid}", ["G", "omim ", "orpha "][k])
+                };
+                if shared_names {
+                    out_local.bucket("records_sharing_a_name");
+                }
                 if rng.chance(1, 8) {
                     bump(&mut out_local.events, "Builder::add_record");
                     match k {
@@ -233,7 +317,18 @@ impl Monitor for C15 {
                     failing_calls += 1;
                 }
             }
-            let b = b.calculate_information_content().map_err(|e| e.to_string())?;
+            let b = match b.calculate_information_content() {
+                Ok(b) => b,
+                Err(e) => {
+                    if gene_ids_accepted.len() > 65_535 {
+                        // more than 65 535 genes were ACCEPTED: the information-content step documents
+                        // this limit; nothing further to compare
+                        out_local.bucket("build_refused_above_documented_record_limit");
+                        return Ok(None);
+                    }
+                    return Err(e.to_string());
+                }
+            };
             let ont = if defaults {
                 out_local.bucket("build/with_defaults");
                 b.build_with_defaults().map_err(|e| e.to_string())?
@@ -241,7 +336,7 @@ impl Monitor for C15 {
                 out_local.bucket("build/minimal");
                 b.build_minimal()
             };
-            Ok::<_, String>((ont, out_local, failing_calls))
+            Ok::<_, String>(Some((ont, out_local, failing_calls)))
         });
         out.case = Json::obj().set("defaults", Json::Bool(defaults)).set("history", Json::arr_str(&hist));
         out.sig = hash_bytes(hist.join("\n").as_bytes());
@@ -254,7 +349,12 @@ impl Monitor for C15 {
                 out.violate("C15", "build_failed", format!("building failed: {e}"));
                 return out;
             }
-            Ok(Ok(x)) => x,
+            Ok(Ok(Some(x))) => x,
+            Ok(Ok(None)) => {
+                out.bucket("build_refused_above_documented_record_limit");
+                out.bucket("history_with_65535_genes");
+                return out;
+            }
         };
         // merge local results
         for (k, v) in &local.buckets {
